@@ -69,6 +69,7 @@ let () =
           state := None;
           hs := Some (hs_init (if t = "shm" then SHM else SOCK));
           pr "r 0"
+        | "hs" :: _ :: _ when !cur_r = ["r"; "-7"] -> pr "r -7"     (* the lab refused to deliver (absurd buffer size) *)
         | "hs" :: kind :: _ ->
           (match !hs, !cur_hb with
            | Some h, Some (k, bytes) ->
